@@ -83,7 +83,11 @@ class Tx:
             self.rows.setdefault(pgno, set()).add(tuple(r[2:]))
             body.append((r, "row"))
         if x26:
-            self.x26cols[pgno] = True
+            cols = self.x26cols.setdefault(pgno, set())
+            for trips in x26:
+                for a, m, _ in trips:
+                    if a < 40 and (m in (1, 2, 0xB, 8, 9, 0xD, 0xF) or 0x10 <= m <= 0x1F):
+                        cols.add(a)
             for d, trips in enumerate(x26):
                 body.append((T.x26(mag8, d, trips), "x26"))
         if x27:
@@ -319,7 +323,10 @@ class C03(verif.Spec):
     trusted_base = ["harness/ttx_harness.c + lean/Driver/Ttx.lean (correspondence on generated transmissions)",
                     "lib/ttx_util.py: sender-side encoders written from EN 300 706 (checked against the Hamm model)",
                     "cache abstracted as an MRU list (joined with the C10 cache model through put/touch events)"]
-    open_statements = []
+    open_statements = ["single-error invisibility of the *stored bytes* of MIP rows (stored raw, decoded at page end; the decode is covered)",
+                       "bisimulation: raw[0][0..7] (verbatim header Hamming bytes) is never read by later steps (only same_clock does, vacuously: F24)",
+                       "refinement of the MRU-list cache abstraction by the C10 cache model (joined through Event.put / Aux.touch)",
+                       "bad_header_refused_full / subpage_number_is_transmitted_full: proved under ttxFixF21 = true (current tree), refuted for the unrepaired code"]
 
     def __init__(self):
         self.meta = {}
@@ -330,7 +337,7 @@ class C03(verif.Spec):
         cases = []
         cases.append(["sizes", "charsets", "net", "stat", "mag 1", "mag 8", "asm 0", "handler 1", "net", "mag 3", "cached"])
         # 1. structured clean transmissions
-        for _ in range(60 if quick else 600):
+        for _ in range(160 if quick else 1200):
             k = rng.random()
             if k < 0.5:
                 tx = gen_tx(rng)
@@ -343,7 +350,8 @@ class C03(verif.Spec):
                     tx.sent_pages |= t.sent_pages; tx.mags |= t.mags
                     for p, r in t.rows.items():
                         tx.rows.setdefault(p, set()).update(r)
-                    tx.x26cols.update(t.x26cols)
+                    for k_, v_ in t.x26cols.items():
+                        tx.x26cols.setdefault(k_, set()).update(v_)
                 pk = interleave(rng, txs)
             else:
                 tx = system_pages(rng)
@@ -357,7 +365,7 @@ class C03(verif.Spec):
             c = self.tag(ops + dumps(tx), "clean", tx)
             cases.append(c)
         # 2. fault twins: every bit of some packets (quick: sampled), single errors in protected bytes
-        for _ in range(14 if quick else 120):
+        for _ in range(40 if quick else 200):
             tx = gen_tx(rng, small=True) if rng.random() < 0.75 else system_pages(rng)
             pk = tx.pk
             cand = [(i, pos) for i, (b, tag) in enumerate(pk) for pos in PROT.get(tag, [0, 1])]
@@ -387,7 +395,7 @@ class C03(verif.Spec):
                     c = ["note twin single pkt=%d tag=%s pos=%d bit=%d" % (i, tag, pos, bit)] + clean + ["reset"] + stream_ops(f) + d
                     cases.append(self.tag(c, "single", tx))
         # 4. double errors: address (must equal the dropped packet), header bytes, row parity, bursts
-        for _ in range(40 if quick else 400):
+        for _ in range(120 if quick else 1000):
             tx = gen_tx(rng, small=True)
             pk = tx.pk
             i = rng.randrange(len(pk))
@@ -408,7 +416,18 @@ class C03(verif.Spec):
                 pos = rng.randrange(2, 10)
                 b1, b2 = rng.sample(range(8), 2)
                 f[i] = (T.flip(T.flip(b, pos, b1), pos, b2), "hdr")
-                c = ["note fault hdr2 pkt=%d pos=%d" % (i, pos)] + stream_ops(f) + d
+                if pos >= 4:
+                    # subcode / control bits uncorrectable: the header is refused whatever byte is hit, and nothing
+                    # but address and page number may matter (theorem bad_header_no_byte_enters): the same header
+                    # with the double error in another byte pair must be indistinguishable
+                    other = rng.choice([6, 7, 8, 9] if pos < 6 else [8, 9] if pos < 8 else [6, 7])
+                    c1, c2 = rng.sample(range(8), 2)
+                    ref = [(list(x), t) for x, t in pk]
+                    ref[i] = (T.flip(T.flip(b, other, c1), other, c2), "hdr")
+                    c = ["note twin hdrbad pkt=%d pos=%d other=%d" % (i, pos, other), "note fault hdr2 pkt=%d pos=%d" % (i, pos)] \
+                        + stream_ops(ref) + d + ["reset"] + stream_ops(f) + d
+                else:
+                    c = ["note fault hdr2 pkt=%d pos=%d" % (i, pos)] + stream_ops(f) + d
                 cases.append(self.tag(c, "hdr2", tx))
             elif k < 0.85:
                 rows = [j for j, (_, t) in enumerate(pk) if t == "row"]
@@ -432,7 +451,7 @@ class C03(verif.Spec):
                 c = ["note fault burst"] + stream_ops(f) + d
                 cases.append(self.tag(c, "burst", tx))
         # 5. malformed stream: random packets, random bytes behind a valid address, truncated streams
-        for _ in range(20 if quick else 300):
+        for _ in range(50 if quick else 500):
             tx = gen_tx(rng, small=True)
             ops = ["handler 1"] if rng.random() < 0.9 else []
             n = rng.choice([10, 40, 120])
@@ -476,7 +495,8 @@ class C03(verif.Spec):
         head = ["note kind " + kind]
         if tx is not None:
             head.append("note sent " + " ".join("%x.%x" % k for k in sorted(tx.sent_pages)))
-            head.append("note x26 " + " ".join("%x" % k for k in sorted(tx.x26cols)))
+            head.append("note x26 " + " ".join("%x:%s" % (k, ",".join("%d" % c for c in sorted(tx.x26cols[k])) or "-")
+                                               for k in sorted(tx.x26cols)))
             for pg in sorted(tx.rows):
                 head.append("note rows %x %s" % (pg, ",".join(sorted(bytes(r).hex() for r in tx.rows[pg]))))
         return head + case
@@ -495,12 +515,17 @@ class C03(verif.Spec):
                 tx.sent_pages = {tuple(int(x, 16) for x in k.split(".")) for k in w[2:]}
             elif len(w) >= 2 and w[1] == "x26":
                 tx = tx or Tx()
-                tx.x26cols = {int(k, 16): True for k in w[2:]}
+                tx.x26cols = {}
+                for k in w[2:]:
+                    pg_, _, cs = k.partition(":")
+                    tx.x26cols[int(pg_, 16)] = {int(c) for c in cs.split(",") if c not in ("", "-")}
             elif len(w) >= 4 and w[1] == "rows":
                 tx = tx or Tx()
                 tx.rows[int(w[2], 16)] = {tuple(bytes.fromhex(h)) for h in w[3].split(",")}
-            elif len(w) >= 2 and w[1] in ("twin", "fault"):
-                twin = "# " + l[5:]
+            elif len(w) >= 2 and w[1] == "twin":
+                twin = "# " + l[5:] + (" " + twin[2:] if twin else "")
+            elif len(w) >= 2 and w[1] == "fault":
+                twin = (twin + " " if twin else "# ") + l[5:]
         return kind, tx, twin
 
     def classify(self, case):
@@ -570,10 +595,17 @@ class C03(verif.Spec):
                         return "cached LOP row with a parity error (page %x row %d)" % (pg, n)
                     if all(b == 0x20 for b in row) or tuple(row) in sent:
                         continue
-                    if tx.x26cols.get(pg) or (maglevel and tx.x26cols):
-                        # X/26 column fix-ups may set the parity bit of overridden columns
-                        if any(all((a & 0x7F) == (b & 0x7F) for a, b in zip(row, s)) for s in sent):
-                            continue
+                    # positions overridden by X/26 enhancement data are excepted by the property: lop_parity_check
+                    # forces odd parity there, so a damaged byte in such a column can pass the gate
+                    cols = set()
+                    if pg in tx.x26cols:
+                        cols = tx.x26cols[pg]
+                    if maglevel:
+                        for p_, c_ in tx.x26cols.items():
+                            if p_ >> 8 == pg >> 8:
+                                cols = cols | c_
+                    if cols and any(all(a == b or i in cols for i, (a, b) in enumerate(zip(row, s))) for s in sent):
+                        continue
                     return "cached LOP row that was never transmitted for this page (page %x row %d)" % (pg, n)
         return None
 
@@ -592,6 +624,7 @@ class C03(verif.Spec):
             b = self.observable(*halves[1], mask_h8=mask)
             if a != b:
                 what = "single bit error in a Hamming protected byte is visible" if "single" in head else \
+                       "headers with uncorrectable subcode or control bits are treated differently depending on the byte hit" if "hdrbad" in head else \
                        "packet with uncorrectable address differs from the dropped packet"
                 d = "events" if a[0] != b[0] else "dump"
                 return "%s (%s; %s)" % (what, re.sub(r"pkt=\d+ ", "", head[2:]), d)
@@ -601,12 +634,65 @@ class C03(verif.Spec):
                 return w
         return None
 
+    # ------------------------------------------------------------------ probes on the real code only
+    def extra_checks(self, ctx):
+        """(1) the formatter must show a header byte received with a parity error as a space;
+           (2) F22 guard audit: a DRCS page with 48 mode-3 PTUs must not write behind its page buffer
+               (raw_page.lop_raw of a magazine that never received a LOP row stays zero)."""
+        out = []
+        hcmd = ctx["hcmd"]
+
+        def run(ops):
+            o, inc = verif.run_side(hcmd, [ops], self.timeout_per_case, min_timeout=10.0)
+            return o.get(0, []), inc
+
+        # (1) bad parity in the header text (stored without a parity gate) is formatted as U+0020
+        text = hdr_text(0x100, 1)
+        good = T.header(1, 0x00, 0, text=text)
+        ops = ["handler 1"]
+        bad = list(good)
+        pos = 10 + 14                       # a letter of "TESTTEXT"
+        bad[pos] ^= 0x80
+        ops += ["pktd " + hx(bad), "pktd " + hx(T.row(1, 1, [0x41] * 40)),
+                "pktd " + hx(T.header(1, 0xFF, 0x3F7F, text=hdr_text(0x1FF, 2))), "fetch 0x100 0"]
+        o, inc = run(ops)
+        if inc or len(o) != len(ops) or not o[-1].startswith("ok "):
+            out.append(("formatter probe did not run (%s)" % (o[-1][:60] if o else "no output"), ops))
+        else:
+            rows = o[-1][3:].split(".")
+            cell = int(rows[0].split(",")[pos - 2], 16)
+            ok_cell = int(rows[0].split(",")[pos - 2 + 1], 16)
+            if cell != 0x20:
+                out.append(("character received with a parity error is displayed (U+%04X instead of a space)" % cell, ops))
+            if ok_cell != (text[pos - 10 + 1]):
+                out.append(("character with good parity is not displayed as sent", ops))
+            if any(int(c, 16) != 0x41 for c in rows[1].split(",")):
+                out.append(("good row is not displayed as sent", ops))
+        # (2) F22 guard audit
+        def pairs(codes):
+            return sum([[c & 15, c >> 4] for c in codes], [])
+        mip = T.h8row(1, 1, pairs([0x01] * 6 + [0xE5] + [0x01] * 3 + [0x01] * 10))
+        f = [(5, 4), (0, 3), (0, 11)] + [(3, 4)] * 48
+        pk = [T.header(1, 0xFD, 0, text=hdr_text(0x1FD, 1)), mip, T.header(1, 0x06, 0, text=hdr_text(0x106, 2)),
+              T.x28_0(1, 28, 3, T.pack_bits(f))]
+        pk += [T.row(1, n, [0x7F] * 40) for n in range(1, 25)]
+        pk += [T.header(1, 0xFF, 0x3F7F, text=hdr_text(0x1FF, 3))]
+        ops = ["handler 1"] + ["pktd " + hx(b) for b in pk] + ["asm 1"]
+        o, inc = run(ops)
+        if inc:
+            out.append(("crash of the real code (DRCS mode 3 page)", ops))
+        elif o and "lopraw=" in o[-1]:
+            lr = o[-1].split("lopraw=")[1].replace(".", "")
+            if lr.strip("0"):
+                out.append(("decoder memory behind a DRCS page buffer overwritten by convert_drcs", ops))
+        return out
+
     def signature(self, case, what):
         what = re.sub(r"\([^)]*\)", "", what).strip()
         kind, tx, head = self.directives(case)
-        m = re.search(r"# fault hdr2 pkt=\d+ pos=(\d+)", head)
+        m = re.search(r"fault hdr2 pkt=\d+ pos=(\d+)", head)
         if m and int(m.group(1)) in (4, 5) and "not transmitted" in what and "under a page number" not in what:
-            # F17: header whose S1/S2 byte pair is uncorrectable while S3/S4 != 0 is accepted
+            # F21 (repaired in /repo e19028b): header whose S1/S2 byte pair is uncorrectable while S3/S4 != 0 was accepted
             return "header accepted with uncorrectable subcode byte pair S1/S2"
         return what
 
